@@ -1,6 +1,7 @@
 import WM.Proto
 import WM.Drv.C01
 import WM.Model.LengthByte
+import WM.Spec.SearchStats
 namespace WM.Drv.C09
 open WM.Proto
 
@@ -21,6 +22,18 @@ def handle (args : List SExp) : String :=
     | some k => toString (WM.LengthByte.approx k)
     | none => "bad-op"
   | [.atom "table"] => showNatList WM.LengthByte.table
+  -- stats INDEX ((field hexterm) ...) -> ((docCount docFreq collFreq fieldLength) ...)
+  | [.atom "stats", idx, .list fts] =>
+    let ft? (e : SExp) : Option (String × WM.Search.Term) :=
+      match e with
+      | .list [.atom f, t] => (WM.Drv.C01.term? t).map (fun tb => (f, tb))
+      | _ => none
+    match WM.Drv.C01.index? idx, fts.mapM ft? with
+    | some ix, some fts =>
+      showList (fun (f, t) =>
+        let st := WM.Search.termStats ix f t
+        s!"({st.docCount} {st.docFreq} {showRat st.collFreq} {st.fieldLength})") fts
+    | _, _ => "bad-op"
   | _ => WM.Drv.C01.handle args
 
 end WM.Drv.C09
